@@ -7,7 +7,8 @@ import (
 	"strings"
 )
 
-var c17Zones = []string{"", "UTC", "+05:30", "-08:00", "America/New_York", "Australia/Lord_Howe"}
+// (America/Chicago and Asia/Shanghai share the abbreviation CST with different offsets)
+var c17Zones = []string{"", "UTC", "+05:30", "-08:00", "America/New_York", "Australia/Lord_Howe", "America/Chicago", "Asia/Shanghai"}
 
 func c17Strings(thorough bool) []string {
 	dates := []string{"0001-01-01", "1999-12-31", "2000-02-29", "2015-08-02", "2015-11-01", "2015-03-08", "9999-12-31"}
@@ -76,6 +77,8 @@ func checkC17(c Case) *Failure {
 		return c17Compare(c)
 	case "transitivity":
 		return c17Triple(c)
+	case "result-string-roundtrip":
+		return c17ResultRoundTrip(c)
 	}
 	f, _ := compareQueryWithRef("C17", c, nil)
 	return f
@@ -247,6 +250,22 @@ func runC17(r *Run) {
 	r.Bound("configurations", len(cfgs))
 	refSweep(r, "datetime-methods-vs-reference", paths, makeDocs([]any{nil}), cfgs)
 
+	// a value a method returns equals the value obtained from its own .string() rendering (also after
+	// rounding carries): relation between real executions
+	var rts []Case
+	for _, s := range strs {
+		for _, m := range []string{"time", "time_tz", "timestamp", "timestamp_tz"} {
+			for _, p := range []string{"", "0", "3", "6"} {
+				rts = append(rts, Case{Rule: "result-string-roundtrip", TZ: true, Zone: "+05:30", Extra: map[string]string{"a": s, "m": m, "p": p}})
+			}
+		}
+	}
+	r.ParFor(len(rts), func(i int) {
+		r.evals.Add(1)
+		if f := c17ResultRoundTrip(rts[i]); f != nil {
+			r.Fail(rts[i], f)
+		}
+	})
 	grid := c17CmpGrid()
 	r.Bound("comparison_grid", len(grid))
 	n := len(grid) * len(grid)
@@ -287,4 +306,30 @@ func runC17(r *Run) {
 			}
 		}
 	})
+}
+
+func c17ResultRoundTrip(c Case) *Failure {
+	m, p := c.Extra["m"], c.Extra["p"]
+	val := "$a." + m + "(" + p + ")"
+	check, err, pan := parseCached(val + " == " + val + ".string()." + m + "()")
+	direct, err2, _ := parseCached(val)
+	if err != nil || err2 != nil || pan != "" {
+		return &Failure{Sig: "C17/harness/parse", Expected: "parses", Observed: fmt.Sprint(err, err2, pan)}
+	}
+	cfg := runCfg{vars: map[string]any{"a": c.Extra["a"]}, tz: c.TZ, zone: c.Zone}
+	if d := implQuery(direct, nil, cfg); d.Class != "ok" {
+		return nil
+	}
+	if strs, e3, _ := parseCached(val + ".string()"); e3 == nil {
+		if so := implQuery(strs, nil, cfg); so.Class == "ok" && len(so.Items) == 1 {
+			if text, ok := so.Items[0].(string); ok && strings.HasPrefix(m, "timestamp") && (len(text) < 5 || text[4] != '-' || text[:4] == "0000") {
+				return nil // the cast moved the value outside years 1..9999 (outside the property)
+			}
+		}
+	}
+	o := implQuery(check, nil, cfg)
+	if o.Class != "ok" || len(o.Items) != 1 || o.Items[0] != true {
+		return &Failure{Sig: "C17/result-differs-from-its-own-string/" + m, Expected: val + " equals the value parsed back from its .string() rendering", Observed: o.String() + " for a=" + c.Extra["a"]}
+	}
+	return nil
 }
